@@ -175,8 +175,8 @@ func alphaFields(a *alphabet, plain bool) (string, string, string) {
 		if uniseg.HasTrailingLineBreakInString(g) {
 			f |= 2
 		}
-		if g == "\n" {
-			f |= 4
+		if uniseg.HasTrailingLineBreakInString(g) {
+			f |= 4 // the cell test of HardwrapScanner (a hard line break; Grapheme == "\n" before the F516 fix)
 		}
 		if g == "\t" {
 			f |= 8 // vaxis.Characters expands it to 8 spaces when the line is drawn
